@@ -57,6 +57,9 @@ WITNESSES = [
     {"match": r"eq\.post\[(Float|different_variants)\]", "kind": "run", "props": ["C13"],
      "input": "println(string_repr(1.5 == 1.5))\nprintln(string_repr(1.5 != 1.5))\nprintln(string_repr([1.5] == [1.5]))\nprintln(string_repr(1.5 == 2.5))",
      "expect": {"stdout": "True\nFalse\nTrue\nFalse"}, "note": "== is reflexive on finite floats"},
+    {"match": r".", "kind": "run", "props": ["C13"],
+     "input": "let a = 0.3\nlet b = 0.30000000000000004\nlet c = 0.0000000000000002\nlet d = 0.0000000000000004\nprintln(string_repr(a == b))\nprintln(string_repr(a != b))\nprintln(string_repr(0.0 == c))\nprintln(string_repr(c == d))\nprintln(string_repr([a] == [b]))\nprintln(string_repr(Dict[\"k\" => a] == Dict[\"k\" => b]))\nprintln(string_repr((a, 1) == (b, 1)))\nprintln(string_repr(Some(a) == Some(b)))\nprintln(string_repr(100000000.0 == 100000000.00000001))\nprintln(string_repr(0.1 +. 0.2 == 0.3))",
+     "expect": {"stdout": "False\nTrue\nFalse\nFalse\nFalse\nFalse\nFalse\nFalse\nFalse\nFalse"}, "note": "distinct floats that are very close are still distinct, alone or nested"},
     {"match": r"eq\.post\[(Dict|different_variants)\]", "kind": "run", "props": ["C13"],
      "input": "println(string_repr(Dict[\"a\" => 1] == Dict[\"a\" => 1]))\nprintln(string_repr(Dict[\"a\" => 1] == Dict[\"a\" => 2]))\nprintln(string_repr(Dict[\"a\" => 1] == Dict[\"b\" => 1]))",
      "expect": {"stdout": "True\nFalse\nFalse"}, "note": "dicts built separately with the same entries are equal"},
